@@ -323,6 +323,10 @@ ERR_CLAUSES = [
     ('data-unknown-statement', '<div data-tal-contnt="a">k</div>'),
     ('data-bad-define', '<div data-tal-define="x">k</div>'),
     ('unknown-statement-renamed-prefix', '<div xmlns:t="http://xml.zope.org/namespaces/tal" t:contnt="a">k</div>'),
+    ('unknown-expression-type-content', '<div tal:content="foo: 1">a</div>'),
+    ('unknown-expression-type-interpolation', '<div>\n <b>x</b>\n   ${foo: 1}</div>'),
+    ('unknown-expression-type-later-alternative', '<div tal:define="x python: 1 | foo: 2">a</div>'),
+    ('unknown-expression-type-nonstrict', '<div tal:attributes="a structure foo: 2">a</div>'),
     ('nonstrict-content', '<div tal:content="1 +">a</div>'),
     ('nonstrict-interpolation-later-line', '<div>\n <b>x</b>\n   ${2 +}</div>'),
     ('nonstrict-define-second-part', '<div tal:define="y 1; x 1 +">a</div>'),
@@ -333,7 +337,7 @@ ERR_CLAUSES = [
 ]
 
 
-ERR_OPTIONS = {'nonstrict-content': {'strict': False}, 'nonstrict-interpolation-later-line': {'strict': False},
+ERR_OPTIONS = {'unknown-expression-type-nonstrict': {'strict': False}, 'nonstrict-content': {'strict': False}, 'nonstrict-interpolation-later-line': {'strict': False},
                'nonstrict-define-second-part': {'strict': False},
                'data-unknown-statement': {'enable_data_attributes': True},
                'data-bad-define': {'enable_data_attributes': True}}
